@@ -14,3 +14,5 @@ import MCHap.Properties.C02
 #print axioms MCHap.C02.mh_db
 #print axioms MCHap.C02.call_compound_step_invariant
 #print axioms MCHap.C02.call_sampler_invariant
+#print axioms MCHap.C02.compoundStep_perm_choices
+#print axioms MCHap.C02.compoundWrites_getD_mem
